@@ -202,6 +202,8 @@ func solve(w *World, o *Obl, tier string, keepQuery bool) *Result {
 	return r
 }
 
+func ctxBackground() context.Context { return context.Background() }
+
 func firstLines(s string, n int) string {
 	ls := strings.Split(s, "\n")
 	if len(ls) > n {
